@@ -131,8 +131,15 @@ def load_known():
 
 
 def known_match(known, prop, key):
+  """A `known` entry matches a violation key exactly (`id`) or by an fnmatch
+  pattern (`id_glob`) that pins the clause, configuration and call site."""
+  import fnmatch
   for k in known:
-    if k.get('status') == 'known' and k.get('property') == prop and k.get('id') == key:
+    if k.get('status') != 'known' or k.get('property') != prop:
+      continue
+    if k.get('id') == key:
+      return k
+    if k.get('id_glob') and fnmatch.fnmatchcase(key, k['id_glob']):
       return k
   return None
 
@@ -238,7 +245,9 @@ def finish(check, tier, seed, units, results, timed_out, wall):
     k = known_match(known, prop, key)
     if k is not None:
       n_known += 1
-      lines.append(f"KNOWN-FINDING: property={prop} {k.get('what', key)}")
+      line = f"KNOWN-FINDING: property={prop} {k.get('what', key)}"
+      if line not in lines:
+        lines.append(line)
       continue
     n_viol += 1
     if n_viol <= 25:
